@@ -503,7 +503,16 @@ func c16HoldGo(id int, reader int, batch any) *c16Held {
 	}
 	h.diffAt = func(i int, before, after []byte) string {
 		if now := c16NormOf(v.Index(i).Addr().Interface()); now != norms[i] {
-			return fmt.Sprintf("a %s whose content was %s when handed out now reads %s", v.Type().Elem(), core.Trunc(norms[i], 160), core.Trunc(now, 160))
+			was := norms[i]
+			x := 0
+			for x < len(was) && x < len(now) && was[x] == now[x] {
+				x++
+			}
+			if x > 60 {
+				// the first difference, with what leads to it
+				was, now = "..."+was[x-60:], "..."+now[x-60:]
+			}
+			return fmt.Sprintf("a %s whose content was %s when handed out now reads %s", v.Type().Elem(), core.Trunc(was, 160), core.Trunc(now, 160))
 		}
 		return "same content, other memory: " + c16DiffBytes(before, after)
 	}
